@@ -41,14 +41,14 @@ def fields(line, skip=3):
     return d
 
 
-def run_restart(binary, args_before, ncases, args_after, timeout):
+def run_restart(binary, args_before, ncases, args_after, timeout, max_restarts=40):
     """run a harness that exits with code 7 after a case that did not return; restart after that case.
     returns (lines, hung_ids, crashed) — crashed = (rc, last RUN/IN line) or None"""
     lines = []
     hung = []
     start = 0
     crashed = None
-    for _ in range(40):
+    for _ in range(max_restarts + 1):
         rc, out = sh([binary] + [str(a) for a in args_before] + [str(ncases), str(start)] + [str(a) for a in args_after],
                      timeout=timeout)
         ls = out.split('\n')
@@ -239,7 +239,7 @@ def run(ctx):
                               '(get_chunk_size/get_num_chunks/init_queue/do_work_chunk not callable as expected): %s' % str(e)[-700:],
                               {'harness': 'c11_arith'}))
         if h:
-            n = 20000 if quick else 400000
+            n = 20000 if quick else 200000
             lines, hung, crashed = run_restart(h, [ctx.seed], n, [], 600 if quick else 3000)
             ins = [x for x in lines if x.startswith('IN AR ')]
             outs = [x for x in lines if x.startswith('OUT AR ')]
@@ -280,7 +280,7 @@ def run(ctx):
             r.hits.append(Hit('tie', 'C11:lock_harness', 'lock-step harness does not compile against the source: %s' % str(e)[-700:],
                               {'harness': 'c11_lock'}))
         if h:
-            n = 1500 if quick else 40000
+            n = 1500 if quick else 20000
             lines, hung, crashed = run_restart(h, [ctx.seed], n, [], 600 if quick else 3000)
             ins = [x for x in lines if x.startswith('IN LK ')]
             outs = [x for x in lines if x.startswith('OUT LK ')]
@@ -318,18 +318,25 @@ def run(ctx):
         try:
             h = ctx.build_harness('c11_e2e', 'c11_e2e.cpp')
         except TieError as e:
-            h = None
-            r.hits.append(Hit('tie', 'C11:e2e_harness', 'end-to-end harness does not compile against the source: %s' % str(e)[-700:],
+            r.hits.append(Hit('tie', 'C11:e2e_harness', 'end-to-end harness does not compile against the source for all 8 shape types: %s' % str(e)[-700:],
                               {'harness': 'c11_e2e'}))
+            try:    # the search for a failing input goes on with the 32/64-bit shape types only
+                h = ctx.build_harness('c11_e2e_wide', 'c11_e2e.cpp', extra=['-DC11_WIDE_ONLY'])
+            except TieError as e2:
+                h = None
+                r.hits.append(Hit('tie', 'C11:e2e_harness_wide', 'end-to-end harness (32/64-bit shapes only) does not compile: %s' % str(e2)[-500:],
+                                  {'harness': 'c11_e2e'}))
         if h:
             ncpu = os.cpu_count() or 4
             tcounts = [t for t in (1, 2, 3, 4, 7, 16) if t <= ncpu]
             big = max(tcounts)
-            per = 130 if quick else 2500
+            per = 130 if quick else 1200
             tier = 0 if quick else 1
             for T in tcounts:
                 huge = 1 if T == big else 0
-                lines, hung, crashed = run_restart(h, [ctx.seed], per, [T, tier, huge], 1500 if quick else 6000)
+                # after a few cases that hang or crash, the run for this worker count is abandoned (each costs a watchdog wait)
+                lines, hung, crashed = run_restart(h, [ctx.seed], per, [T, tier, huge], 1500 if quick else 6000,
+                                                   max_restarts=6 if huge else 3)
                 runs = {x.split(' ')[2]: x for x in lines if x.startswith('RUN E2E ')}
                 ins = [x for x in lines if x.startswith('IN E2E ') or x.startswith('IN GEN ')]
                 outs = [x for x in lines if x.startswith('OUT E2E ') or x.startswith('OUT GEN ')]
